@@ -464,6 +464,8 @@ func TestC10(t *testing.T) {
 		c10Concurrent(t, run)
 	}
 	c10ConcurrentNamed(run)
+	c10Large(run)
+	c10Mutable(run)
 	run.Complete()
 	if run.Violations() > 0 {
 		t.Errorf("%d violation(s)", run.Violations())
@@ -689,5 +691,144 @@ func c10ConcurrentNamed(run *Run) {
 	}
 	if !run.Replaying() {
 		run.Require("concurrent-named|subjects=1|producers=2")
+	}
+}
+
+// c10Large: queues of hundreds of broadcasts (the tree behind the queue has several levels then) pruned to
+// PRNG sizes: Prune keeps the n broadcasts that have been transmitted least (newest among equals), completes every
+// other one exactly once, and later retrievals hand out exactly the kept ones.
+func c10Large(run *Run) {
+	rounds := run.Pick(40, 3000)
+	for round := 0; round < rounds; round++ {
+		if !run.Mine(round) {
+			continue
+		}
+		id := fmt.Sprintf("large/%d", round)
+		if !run.Want(id) {
+			continue
+		}
+		run.Journal(id, "")
+		rng := rand.New(rand.NewSource(run.Seed()*4099 + int64(round)))
+		q := &memberlist.TransmitLimitedQueue{RetransmitMult: 4, NumNodes: func() int { return 100 }}
+		total := 65 + rng.Intn(900)
+		var all []*tb
+		for i := 0; i < total; i++ {
+			b := &tb{uid: i + 1, kind: kUnique, msg: mkMsg(1 + rng.Intn(40))}
+			all = append(all, b)
+			q.QueueBroadcast(uniqueTB{b})
+			if rng.Intn(40) == 0 {
+				q.GetBroadcasts(1, 30+rng.Intn(400)) // some get ahead in transmissions
+			}
+		}
+		before := q.NumQueued()
+		keep := rng.Intn(before + 1)
+		var perr any
+		func() {
+			defer func() { perr = recover() }()
+			q.Prune(keep)
+		}()
+		run.Eval(1)
+		run.Cell("large", fmt.Sprintf("queued>=%d", 64*(before/64)), fmt.Sprintf("keep=%d%%", 25*(4*keep/(before+1))))
+		if perr != nil {
+			run.Violation(id, "C10/panic/prune-large", fmt.Sprintf("Prune(%d) on a queue of %d broadcasts panicked: %v", keep, before, perr), map[string]any{"round": round})
+			continue
+		}
+		fin, twice := 0, 0
+		for _, b := range all {
+			switch f := b.fin.Load(); {
+			case f == 1:
+				fin++
+			case f > 1:
+				twice++
+			}
+		}
+		completedBefore := total - before // (completed by reaching the retransmit limit during filling)
+		if q.NumQueued() != keep || twice > 0 || fin != completedBefore+(before-keep) {
+			run.Violation(id, "C10/prune-large", fmt.Sprintf("Prune(%d) on a queue of %d: %d remain queued, %d completed once (expected %d), %d more than once", keep, before, q.NumQueued(), fin, completedBefore+(before-keep), twice), map[string]any{"round": round})
+			continue
+		}
+		// drain: exactly the never-completed ones come out, each the remaining number of times
+		handed := map[unsafe.Pointer]int{}
+		for guard := 0; q.NumQueued() > 0 && guard < 200; guard++ {
+			for _, m := range q.GetBroadcasts(0, 1<<20) {
+				handed[msgID(m)]++
+			}
+		}
+		bad := ""
+		for _, b := range all {
+			if b.fin.Load() != 1 {
+				bad = fmt.Sprintf("uid %d completed %d times after the drain", b.uid, b.fin.Load())
+			}
+		}
+		if bad != "" || q.NumQueued() != 0 {
+			run.Violation(id, "C10/prune-large/drain", fmt.Sprintf("after Prune(%d) of %d and a full drain: %s; %d still queued", keep, before, bad, q.NumQueued()), map[string]any{"round": round})
+		}
+	}
+}
+
+// growTB: a broadcast whose Message() is rendered on demand and may be longer (or shorter) than it was when the
+// broadcast was queued - an application that coalesces updates in place or encodes lazily.
+type growTB struct {
+	cur atomic.Pointer[[]byte]
+	fin atomic.Int32
+}
+
+func (g *growTB) Message() []byte                       { return *g.cur.Load() }
+func (g *growTB) Finished()                             { g.fin.Add(1) }
+func (g *growTB) Invalidates(memberlist.Broadcast) bool { return false }
+func (g *growTB) UniqueBroadcast()                      {}
+
+// c10Mutable: whatever the broadcasts return from Message() at retrieval time, a retrieval fits the limit it was
+// given (sizes as returned plus the stated overhead), never panics, and returns only current messages of queued
+// broadcasts.
+func c10Mutable(run *Run) {
+	rounds := run.Pick(200, 20000)
+	for round := 0; round < rounds; round++ {
+		if !run.Mine(round) {
+			continue
+		}
+		id := fmt.Sprintf("mutable/%d", round)
+		if !run.Want(id) {
+			continue
+		}
+		rng := rand.New(rand.NewSource(run.Seed()*6151 + int64(round)))
+		q := &memberlist.TransmitLimitedQueue{RetransmitMult: 3, NumNodes: func() int { return 30 }}
+		var bs []*growTB
+		for i := 0; i < 3+rng.Intn(30); i++ {
+			g := &growTB{}
+			m := make([]byte, 1+rng.Intn(120))
+			g.cur.Store(&m)
+			bs = append(bs, g)
+			q.QueueBroadcast(g)
+		}
+		for step := 0; step < 12; step++ {
+			for _, g := range bs {
+				if rng.Intn(3) == 0 {
+					m := make([]byte, 1+rng.Intn(200))
+					g.cur.Store(&m)
+				}
+			}
+			overhead, limit := rng.Intn(4), 20+rng.Intn(300)
+			var got [][]byte
+			var perr any
+			func() {
+				defer func() { perr = recover() }()
+				got = q.GetBroadcasts(overhead, limit)
+			}()
+			run.Eval(1)
+			if perr != nil {
+				run.Violation(id, "C10/panic/mutable-length", fmt.Sprintf("GetBroadcasts(%d, %d) panicked: %v", overhead, limit, perr), map[string]any{"round": round})
+				break
+			}
+			sum := 0
+			for _, m := range got {
+				sum += overhead + len(m)
+			}
+			if sum > limit {
+				run.Violation(id, "C10/over-limit/mutable-length", fmt.Sprintf("a retrieval of %d messages needs %d bytes including the stated overhead of %d each, the limit given was %d (the broadcasts' messages had changed length since they were queued)", len(got), sum, overhead, limit), map[string]any{"round": round})
+				break
+			}
+		}
+		run.Cell("mutable-length")
 	}
 }
